@@ -66,6 +66,7 @@ type BundleCfg struct {
 	NoCollisions          bool
 	NoKeepNames           bool
 	KeepNamesPlainOnly    bool // KeepNames only together with the plain name layer
+	NoOAIGenNamedAliases  bool // a root definition whose name contains "OAIGen" is never a bare alias of a remote definition
 	NoSharedSchemaPtrs    bool
 	NoAnonPtrsIntoAliases bool
 }
@@ -213,17 +214,51 @@ func (g *bgen) defSchema(doc string, self target, allowRef bool) O {
 	if _, isRef := s["$ref"]; !isRef {
 		return s
 	}
+	// global order: auxiliary definitions (document order, then name order) come before all root
+	// definitions: auxiliary documents never refer back to the root, so a root definition may alias
+	// any auxiliary definition (a very common shape: "foo": {"$ref": "aux.json#/definitions/foo"})
 	var earlier []target
+	if doc == "" {
+		for _, tg := range g.targetsFor(doc) {
+			if tg.doc != "" {
+				earlier = append(earlier, tg)
+			}
+		}
+	}
 	for _, tg := range g.targetsFor(doc) {
 		if tg == self {
 			break
+		}
+		if doc == "" && tg.doc != "" {
+			continue
 		}
 		earlier = append(earlier, tg)
 	}
 	if len(earlier) == 0 {
 		return g.prim()
 	}
+	if g.cfg.NoOAIGenNamedAliases && doc == "" && strings.Contains(self.name, "OAIGen") {
+		var local []target
+		for _, tg := range earlier {
+			if tg.doc == "" {
+				local = append(local, tg)
+			}
+		}
+		if len(local) == 0 {
+			return g.prim()
+		}
+		earlier = local
+	}
 	g.Label("alias-definition")
+	if doc == "" && g.Pct(50) {
+		// alias to the auxiliary definition of the same (folded) name, if any: the import then collides with the alias itself
+		for _, tg := range earlier {
+			if tg.doc != "" && CollisionBase(tg.name, true) == CollisionBase(self.name, false) {
+				g.Label("alias-to-colliding-import")
+				return g.refTo(doc, tg)
+			}
+		}
+	}
 	return g.refTo(doc, earlier[g.Int(0, len(earlier)-1)])
 }
 
